@@ -6,8 +6,11 @@ V = os.path.dirname(os.path.dirname(os.path.abspath(__file__)))
 props = [json.loads(l)["id"] for l in open(os.path.join(V, "properties.jsonl"))]
 base = json.load(open(os.path.join(V, "manifest.d", "base.json")))
 na = json.load(open(os.path.join(V, "manifest.d", "na.json")))
+enabled = set(open(os.path.join(V, "manifest.d", "enabled.txt")).read().split())
 checks = []
 for p in props:
+    if p not in enabled:
+        continue
     f = os.path.join(V, "manifest.d", p + ".json")
     if os.path.exists(f):
         checks.append(json.load(open(f)))
